@@ -427,7 +427,9 @@ class Sym:
             r = NONE
         elif out.env is not None:
             r = self._fill(r, NONE)
-        self.ret: Term = self._fill(r, NONE)
+        self.ret_full: Term = self._fill(r, NONE)  # with the raising alternatives
+        # the value when the function returns normally (what a caller sees; raises are in the log with their conditions)
+        self.ret, self.ret_facts = _strip_raises(self.ret_full)
 
     # ------------------------------------------------------------------ helpers
     @staticmethod
@@ -588,8 +590,10 @@ class Sym:
     def _fresh(self, name: str, val: Term) -> Term:
         """A local that is mutated in place later keeps its identity: two arrays created by the same expression
         (``amp, det = zeros(n), zeros(n)``) are different objects.  They are numbered in binding order."""
-        if name in self._mutated and val[0] in ("call", "list", "dict", "set", "comp", "tuple"):
-            return ("obj", next(self._n_obj), val)
+        if val[0] in ("call", "list", "dict", "set", "comp", "tuple"):
+            k = next(self._n_obj)  # every creation is counted, so the number of an object does not depend on the others' use
+            if name in self._mutated:
+                return ("obj", k, val)
         return val
 
     def _bind_target(self, tgt: ast.AST, val: Term, env: dict) -> None:
@@ -712,8 +716,7 @@ class Sym:
         if size(t) > MAX_TERM_NODES:
             return None
         # a helper that returned did not raise: its raising branches become facts of the caller's path
-        t, facts = _strip_raises(t)
-        self._pending.extend(facts)
+        self._pending.extend(sub.ret_facts)
         return t
 
     # ----------------------------------------------------------------- statements
